@@ -791,6 +791,24 @@ def smooth_w_rt(self, s, result):
     return WRT.smooth_condition(self, now(self), s)
 
 
+# ------------------------------------------------------------------------------ noise (C09/C15 at the Weaver)
+
+contract(W + '.noise', params=dict(self=Obj(W), snr=Union(NoneT, Real, Seq(Real, kind='arraylike')), kwargs=Kwargs),
+         modifies=['self'], no_rt=True)
+
+
+@requires(W + '.noise')
+def noise_w_pre(self, snr, kwargs):
+    return (len(snr) == len(self.y)) if is_seq(snr) else True
+
+
+@ensures(W + '.noise')
+def noise_w_post(self, snr, kwargs, result):
+    """C09/C15: adding noise keeps x and the length, writes a new y and leaves reference, original and the caller's snr alone"""
+    return (work_x_same(self, now(self)) and len(now(self).y) == len(self.y)
+            and same(now(self).reference_x, self.reference_x) and same(now(self).reference_y, self.reference_y) and orig_same(self, now(self)))
+
+
 # ------------------------------------------------------------------ run-time generators (bounded stand-in only)
 
 def gen_tbv(rnd):
